@@ -2,7 +2,7 @@
    cycle of the type graph of the property text; so acyclicity of the latter is enough. *)
 From Coq Require Import String Ascii.
 From Coq Require Import List Arith Lia Bool.
-Require Import TT.Model.Base TT.Model.Str TT.Model.C07TypeParse TT.Model.Harvest TT.Model.C07Worklist TT.Model.C07Reach TT.Model.Topo.
+Require Import TT.Model.Base TT.Model.Str TT.Model.C07TypeParse TT.Model.C07Harvest TT.Model.C07Worklist TT.Model.C07Reach TT.Model.Topo.
 Require Import TT.Spec.C07Spec TT.Spec.C09Spec.
 Require Import TT.Proofs.TopoProofs TT.Proofs.C20Extra TT.Proofs.WorklistSpike TT.Proofs.C07Proofs TT.Proofs.C07Concrete TT.Proofs.C09Proofs.
 Import ListNotations.
